@@ -511,7 +511,8 @@ def r6(ctx):
         return U(x).replace(" ", "")
 
     def full(e):
-        return inline_calls(inline(e, env), ctx.R, init.mod, scope=init.node)
+        from engine.peval import fuse_comprehensions
+        return fuse_comprehensions(inline_calls(inline(e, env), ctx.R, init.mod, scope=init.node))
 
     def mat_layout(e, src):
         """'N' if e denotes the (n, arity) matrix src itself, 'T' if its transpose; None otherwise"""
